@@ -6,6 +6,7 @@
   `stop` goroutine, the loops and the ticker.
 -/
 import Gnet.Model.Engine
+import Gnet.Props.C06
 import Gnet.Proofs.Engine
 import Gnet.Props.Handover
 namespace Gnet.Props.C19
@@ -83,5 +84,9 @@ example : let s := run (init 1 false) [.accept 0, .traffic 0 0, .requestStop, .s
 
 example : api .never .stop = .empty ∧ api .running .validate = .nil ∧ api .down .dup = .inShutdown ∧ api .down .count = .minusOne := by
   decide
+
+/-- the order of the statements of `engine.stop` / `Client.Stop` in the current source is the order of the stopper of the
+model: pollers and listeners are closed only after every loop has exited, the flag is set last (Props/C06.lean) -/
+theorem stop_order_followed : type_of% @Gnet.Props.C06.stop_order_followed := @Gnet.Props.C06.stop_order_followed
 
 end Gnet.Props.C19
